@@ -128,4 +128,19 @@ PROPS = {
             "covered only by the differential stream",
         ],
     },
+    "C14": {
+        "claimed": True,
+        "title": "Tokens survive serialisation exactly; decoding arbitrary text never crashes",
+        "lean": ["Gonuts.Props.C14", "Gonuts.Tie.Token"],
+        "streams": ["token", "token-fuzz"],
+        "level": "proof",
+        "technique": "Lean 4 theorems over Model.Token (abstract syntax of cashu.Proof/TokenV3/TokenV4, NewTokenV3/V4 incl. the Go map grouping with the iteration order as a parameter, accessors, executable encoding/hex and encoding/base64 with proved decode(encode)=id, the byte-level string front end of DecodeToken with Go panics as explicit outcomes) + differential correspondence of every step with the real code + model-free round-trip and no-panic monitors",
+        "design_ref": "DESIGN.md §5 C14, §4.4, §6 F9",
+        "text": "Proved in Lean for ALL inputs of the model (unbounded proof lists, every String, every UInt64): v3_roundtrip (NewTokenV3 -> Serialize -> DecodeToken gives back mint, unit, and exactly the proofs in order, DLEQ complete iff requested), v4_roundtrip (lower-case hex ids/C/DLEQ, r non-empty: NewTokenV4 succeeds and the decoded proofs are exactly the input proofs, keyset by keyset in the map-iteration order, a permutation of the input with the order inside each keyset preserved; every field equal) and v4_roundtrip_anycase (any accepted input: hex fields come back as EncodeToString(DecodeString x), i.e. A-F lowered), newV4_rejects/accepts/first_error (what NewTokenV4 refuses and with which error), amount_eq_sum (both formats, wrapping identically), decode_total / decode_total_bytes (for EVERY string / byte sequence and EVERY behaviour of the JSON/CBOR libraries DecodeToken returns an error or a token on which Mint and Serialize do not panic; Proofs and Amount are total). wire_lossless / wire_injective / v3_roundtrip_closed / v4_roundtrip_closed: json.Marshal(TokenV3) and cbor.Marshal(TokenV4) are modelled as executable Lean functions (Model.TokenWire: struct tags and omitempty tied to the source, Go's JSON escaping, CBOR definite-length maps), a parser for exactly that canonical form is proved to read every token back (all strings, all amounts; CBOR lengths < 2^64), so the encodings are injective and the round trips hold with no hypothesis about the libraries for the codec made of these functions. encoding/hex and encoding/base64 are executable Lean functions with decode(encode b)=b proved; the byte-level string front end (tokenstr[:6] on bytes, prefix compare, URL then RawURL base64 with Go's error offsets and skipped CR/LF) is modelled exactly.",
+        "note": "The real decoders encoding/json and fxamacker/cbor are NOT modelled in general (abstract Codec): the general round-trip theorems assume Unmarshal(Marshal t)=t for the token at hand; the closed theorems use the modelled marshallers (compared byte for byte with the real Serialize on every generated token) and canonical parsers (compared with the real Unmarshal: the parser reads every real payload back to the token the real decoder yields, and on ~4k fuzzed payloads per quick run that it accepts the real decoder returns the identical token). What remains an assumption is that the real Unmarshal agrees with the canonical parser on Marshal output beyond the generated tokens; that the libraries do not panic on hostile payloads is fuzzed (type-directed wrong-shaped JSON/CBOR, truncations, mutations), not proved. V4 does not preserve upper-case hex literally and the group order is unspecified (Go map iteration): both are part of the theorem statements. Defect F9 (panic on inputs < 6 bytes; Mint() panic on a decoded V3 token without entries) was found by these streams on the unchanged code, proved as decode_total_old_false / decodeOld_panic_iff, and fixed in /repo by fix: commit 10453c5; the model, the ties (conds_V3/V4 mention the length check) and the regression family F9-regression follow the fixed code.",
+        "assumptions": COMMON_ASSUME + [
+            "encoding/json and fxamacker/cbor are abstract functions (Codec) in the model: decode_total holds for EVERY codec (whatever the libraries return, the token code does not panic; that the libraries themselves do not panic is fuzzed, not proved); the round-trip theorems assume dec(enc t)=some t for the token at hand, which the stream checks on every generated token with the real libraries",
+            "proof fields are Lean Strings (valid Unicode); Go strings that are not valid UTF-8 are outside the property's domain (the stream records what happens to them: JSON replaces the bytes, CBOR refuses to decode)",
+        ],
+    },
 }
